@@ -14,10 +14,10 @@ EXTENDS Integers, Sequences, TLC, MutateData
 \* MutateData (generated) defines Seeds == sequence of token sequences, as a plain definition
 CONSTANT MaxMut       \* number of mutations per program
 
-Alphabet == << ".decl", ".input", ".output", ".type", ".comp", ".init", ".functor", ".pragma", ".plan", ".printsize",
+Alphabet == << ".decl", ".input", ".output", ".type", ".comp", ".init", ".functor", ".pragma",
                "a", "x", "number", "symbol", "0", "1", "\"s\"",
                "(", ")", ",", ".", ":-", "!", "=", "!=", "<", "<:", "[", "]", "{", "}", ":", ";", "_", "$", "|",
-               "+", "-", "*", "/", "^", "@", "#", "count", "min", "sum", "nil", "inline", "as", "eqrel",
+               "+", "-", "*", "#", "count", "min", "nil", "as",
                "<NUL>", "<FF>", "<DQ>", "<BS>", "<NL>" >>
 
 VARIABLES s,      \* index of the seed
